@@ -6,6 +6,7 @@
 
 mod deb;
 mod pgp;
+mod rel;
 mod util;
 
 use std::io::{BufRead, Write};
@@ -28,6 +29,9 @@ fn dispatch(op: &str, args: &[&str]) -> Option<Resp> {
         return Some(r);
     }
     if let Some(r) = deb::handle(op, args) {
+        return Some(r);
+    }
+    if let Some(r) = rel::handle(op, args) {
         return Some(r);
     }
     None
